@@ -303,7 +303,7 @@ def judge(chk, runs, verdicts, drifts):
 def submit(pool, quick):
     jobs = {}
     if quick:
-        jobs["clean"] = pool.submit(job, "C16_st_clean", mc_consts(soft=1, hard=3, gaps=(0, 1, 3), nops=(2, 1)),
+        jobs["clean"] = pool.submit(job, "C16_st_clean", mc_consts(soft=1, hard=3, gaps=(0, 2), nops=(2, 1)),
                                     invariants=INVS, workers=4)
     else:
         jobs["clean"] = pool.submit(job, "C16_st_clean", mc_consts(gaps=(0, 1, 3, 5), nops=(2, 1)), invariants=INVS,
